@@ -144,7 +144,7 @@ Fixpoint pwith (w : Z) (fs : list sfld) (p : pcore) : pcore :=
   | PFilt thr c => PFilt thr (pwith w fs c)
   end.
 
-(* lazyWithCore.initOnce: d.Once.Do(func() { d.Core = d.Core.With(d.fields) }); returns d.Core *)
+(* lazyWithCore.initOnce: d.Once.Do(func() { d.core = d.originalCore.With(d.fields) }); returns d.core *)
 Definition init_once (force : store -> pcore * store) (id : nat) (sg : store) : pcore * store :=
   match lookup id sg with
   | Some p => (p, sg)
@@ -189,22 +189,21 @@ Fixpoint penabled (hi : bool) (p : pcore) : bool :=
   | PIo _ _ _ | PObs _ _ => true
   | PTee l => existsb (penabled hi) l
   | PSamp c | PHook c => penabled hi c           (* embedded Core *)
-  | PFilt thr _ => admits thr hi                  (* c.level.Enabled(lvl) *)
+  | PFilt thr c => admits thr hi && penabled hi c (* c.level.Enabled(lvl) && c.core.Enabled(lvl) *)
   end.
-Fixpoint renabled (hi : bool) (c : lcomp) (sg : store) : bool :=
+Fixpoint renabled (hi : bool) (c : lcomp) : bool :=
   match c with
   | LIo _ _ | LObs _ => true
-  | LTee l => existsb (fun x => renabled hi x sg) l
-  | LSamp c | LHook c => renabled hi c sg
-  | LFilt thr _ => admits thr hi
-  | LLazy id _ inner =>                           (* promoted from the embedded d.Core, whatever it currently is *)
-      match lookup id sg with Some p => penabled hi p | None => renabled hi inner sg end
+  | LTee l => existsb (renabled hi) l
+  | LSamp c | LHook c => renabled hi c
+  | LFilt thr c => admits thr hi && renabled hi c
+  | LLazy _ _ inner => renabled hi inner          (* d.originalCore.Enabled(level): the immutable original core *)
   end.
-Fixpoint kenabled (root : lcomp) (hi : bool) (k : kcore) (sg : store) : bool :=
+Fixpoint kenabled (root : lcomp) (hi : bool) (k : kcore) : bool :=
   match k with
-  | LRoot => renabled hi root sg
+  | LRoot => renabled hi root
   | LPure p => penabled hi p
-  | LLazyW id _ inner => match lookup id sg with Some p => penabled hi p | None => kenabled root hi inner sg end
+  | LLazyW _ _ inner => kenabled root hi inner    (* d.originalCore.Enabled(level) *)
   end.
 
 (* what one logging call makes observable *)
@@ -239,10 +238,12 @@ Fixpoint plog (p : pcore) (nn : bool) {struct p} : res :=
   | PSamp c =>
       if penabled hi c then let '(c1, w1, n1) := plog c nn in (ESamp :: c1, w1, n1) else ([], [], nn)
   | PHook c =>
-      (* downstream := h.Core.Check(ent, ce); if downstream != nil: downstream.AddCore(ent, h) *)
+      (* registered := len(ce.cores); downstream := h.Core.Check(ent, ce); if downstream == nil: return ce;
+         if len(downstream.cores) > registered: downstream.AddCore(ent, h).  Every registered core writes
+         exactly one event, so the wrapped core registered something iff its write list is not empty. *)
       let '(c1, w1, n1) := plog c nn in
-      (c1, if n1 then w1 ++ [EHook (name ent) (message ent)] else w1, n1)
-  | PFilt thr c => if admits thr hi then plog c nn else ([], [], nn)
+      (c1, if n1 then (if is_nil w1 then w1 else w1 ++ [EHook (name ent) (message ent)]) else w1, n1)
+  | PFilt thr c => if admits thr hi && penabled hi c then plog c nn else ([], [], nn)
   end.
 
 Fixpoint rlog (c : lcomp) (sg : store) (nn : bool) {struct c} : res * store :=
@@ -257,15 +258,17 @@ Fixpoint rlog (c : lcomp) (sg : store) (nn : bool) {struct c} : res * store :=
                      let '((c2, w2, n2), sg2) := go r sg1 n1 in ((c1 ++ c2, w1 ++ w2, n2), sg2)
          end) l sg nn
   | LSamp c =>
-      if renabled hi c sg then let '((c1, w1, n1), sg1) := rlog c sg nn in ((ESamp :: c1, w1, n1), sg1)
+      if renabled hi c then let '((c1, w1, n1), sg1) := rlog c sg nn in ((ESamp :: c1, w1, n1), sg1)
       else (([], [], nn), sg)
   | LHook c =>
       let '((c1, w1, n1), sg1) := rlog c sg nn in
-      ((c1, if n1 then w1 ++ [EHook (name ent) (message ent)] else w1, n1), sg1)
-  | LFilt thr c => if admits thr hi then rlog c sg nn else (([], [], nn), sg)
+      ((c1, if n1 then (if is_nil w1 then w1 else w1 ++ [EHook (name ent) (message ent)]) else w1, n1), sg1)
+  | LFilt thr c => if admits thr hi && renabled hi c then rlog c sg nn else (([], [], nn), sg)
   | LLazy id lfs inner =>
-      (* d.initOnce(); return d.Core.Check(e, ce) *)
-      let '(cur, sg1) := init_once (rwith w lfs inner) id sg in (plog cur nn, sg1)
+      (* if !d.originalCore.Enabled(e.Level): return ce;  d.initOnce(); return d.core.Check(e, ce) *)
+      if renabled hi inner then
+        let '(cur, sg1) := init_once (rwith w lfs inner) id sg in (plog cur nn, sg1)
+      else (([], [], nn), sg)
   end.
 
 Definition klog (root : lcomp) (k : kcore) (sg : store) : res * store :=
@@ -273,7 +276,9 @@ Definition klog (root : lcomp) (k : kcore) (sg : store) : res * store :=
   | LRoot => rlog root sg false
   | LPure p => (plog p false, sg)
   | LLazyW id lfs inner =>
-      let '(cur, sg1) := init_once (kwith root w lfs inner) id sg in (plog cur false, sg1)
+      if kenabled root hi inner then
+        let '(cur, sg1) := init_once (kwith root w lfs inner) id sg in (plog cur false, sg1)
+      else (([], [], false), sg)
   end.
 End Log.
 
@@ -312,7 +317,7 @@ Definition derive (root : lcomp) (lg : logger) (s : step) (w : Z) (sg : store) (
 (* Logger.check + CheckedEntry.Write *)
 Definition do_log (root : lcomp) (lg : logger) (hi : bool) (msg : bytes) (fs : list sfld) (w : Z) (sg : store)
   : list ev * store :=
-  if kenabled root hi (lcore lg) sg then        (* lvl < DPanicLevel && !log.core.Enabled(lvl): return nil *)
+  if kenabled root hi (lcore lg) then        (* lvl < DPanicLevel && !log.core.Enabled(lvl): return nil *)
     let '((c1, w1, _), sg') := klog (mk_entry hi (lname lg) msg) hi w fs root (lcore lg) sg in
     (c1 ++ w1, sg')
   else ([], sg).
@@ -403,7 +408,7 @@ Fixpoint senabled (hi : bool) (c : lcomp) : bool :=
   | LIo _ _ | LObs _ => true
   | LTee l => existsb (senabled hi) l
   | LSamp c | LHook c | LLazy _ _ c => senabled hi c
-  | LFilt thr _ => admits thr hi
+  | LFilt thr c => admits thr hi && senabled hi c
   end.
 Fixpoint all_ids (c : lcomp) : list nat :=
   match c with
@@ -419,8 +424,8 @@ Fixpoint log_ids (hi : bool) (c : lcomp) : list nat :=
   | LTee l => concat (map (log_ids hi) l)
   | LSamp c => if senabled hi c then log_ids hi c else []
   | LHook c => log_ids hi c
-  | LFilt thr c => if admits thr hi then log_ids hi c else []
-  | LLazy id _ c => all_ids c ++ [id]
+  | LFilt thr c => if admits thr hi && senabled hi c then log_ids hi c else []
+  | LLazy id _ c => if senabled hi c then all_ids c ++ [id] else []
   end.
 Fixpoint mark_all (w : Z) (ids : list nat) (m : marks) : marks :=
   match ids with
@@ -462,8 +467,9 @@ Fixpoint swalk (c : lcomp) (ch : list pitem) (nn : bool) {struct c} : res :=
                      let '(c2, w2, n2) := go r n1 in (c1 ++ c2, w1 ++ w2, n2)
          end) l nn
   | LSamp c => if senabled hi c then let '(c1, w1, n1) := swalk c ch nn in (ESamp :: c1, w1, n1) else ([], [], nn)
-  | LHook c => let '(c1, w1, n1) := swalk c ch nn in (c1, if n1 then w1 ++ [EHook nm msg] else w1, n1)
-  | LFilt thr c => if admits thr hi then swalk c ch nn else ([], [], nn)
+  | LHook c => let '(c1, w1, n1) := swalk c ch nn in
+               (c1, if n1 then (if is_nil w1 then w1 else w1 ++ [EHook nm msg]) else w1, n1)
+  | LFilt thr c => if admits thr hi && senabled hi c then swalk c ch nn else ([], [], nn)
   | LLazy id lfs c => swalk c (PLazy id lfs :: ch) nn
   end.
 End SpecLog.
